@@ -255,7 +255,9 @@ def pose(draw, ppos, classes=None):
     small = geom.axis_angle_matrix(draw(unit_vector()), eps)
     if cls == "near-parallel":
         # also spin about the axis so that the orientation step has work to do
-        spin = geom.axis_angle_matrix(ax, draw(st.floats(0, 2 * math.pi)))
+        # any twist, or one within a hair of 0 / 180 degrees (where the sense of the orienting rotation is decided)
+        tw = draw(st.one_of(st.floats(0, 2 * math.pi), st.sampled_from([0.0, math.pi, 5e-5, -2e-5, math.pi - 5e-5, math.pi + 3e-5, 1e-7])))
+        spin = geom.axis_angle_matrix(ax, tw) if tw != 0.0 else np.eye(3)
         return small @ spin, cls
     return small @ geom.axis_angle_matrix(o, math.pi), cls
 
